@@ -461,6 +461,11 @@ def conditions(tier: str) -> list[core.Cond]:
         for bs in (2, 3):
             for fx in [{"l1": a, "r1": b, "l2": c, "r2": d} for a in (0, 1) for b in (0, 1) for c in (0, 1) for d in (0, 1, 2)]:
                 add(5, 3, bs, fx)
+    for bs in ((2,) if tier == "quick" else (1, 2, 5)):
+        for k0 in (False, True):
+            for k1 in (False, True):
+                conds.append(core.Cond(f"q4.store changes between two unique-graph runs, batch={bs} shard={int(k0)}{int(k1)}", HARNESS, "history",
+                                       {"kind": "history", "batch": bs, "k0": k0, "k1": k1}, tmo))
     conds.append(core.Cond("twin", HARNESS, "twin", {"n": 3, "T": 2, "batch": 2, "fix": {}}, tmo, expect_violation=True))
     return conds
 
@@ -480,6 +485,8 @@ def run(tier: str) -> int:
     nq1 = 3 if tier == "quick" else 4
     chk.bounds = {"q1": f"all pairs of tree skeletons with <= {nq1} nodes, labels arbitrary strings (unbounded, then < 16 chars)",
                   "q2": f"all stores of N = {4 if tier == 'quick' else 6} rows, any window",
+                  "q4": "two separate-process unique-graph runs on one store, the second ingesting other files with a 1-minute buffer; symbolic: "
+                        "which traces of the first run survive the second run's cleaning",
                   "q3": "quick: 3 rows over <=2 traces x batch 1,2,5 and 4 rows over <=2 traces x batch 2; thorough: 4 rows x batch 1,2,3,7 and "
                         "5 rows over <=3 traces x batch 2,3: every assignment of rows to traces (every interleaving), span types from a "
                         "2-letter alphabet, chain/star placement of the third and later spans of a trace"}
